@@ -8,6 +8,7 @@
 (*   "through"  a mask through slicing, lazy and physical transposition,   *)
 (*              materialisation and cloning                                *)
 (*   "ops"      masked operands in elementwise operations                  *)
+(*   "arg"      arg-reductions of masked tensors (flat and per axis)       *)
 (***************************************************************************)
 EXTENDS Layouts, Iter, Gen, Json
 
@@ -78,6 +79,8 @@ Next ==
                            \* (softness is set on the view itself: whether a view inherits it from its source is not stated)
                            \/ DoAllX(<<new, Op("Slice", 1, sl), Op("Soften", 2, <<1>>), Op("MaskPred", 2, <<"le", 3, 0>>)>>)
                            \/ DoAllX(<<new, Op("Slice", 1, sl), Op("ResetMask", 2, <<>>)>>)
+              [] Mode = "arg" ->        \* masked elements do not take part in arg-reductions
+                   Len(s) >= 1 /\ \E f \in {"max", "min"}, ax \in (-1)..(Len(s) - 1) : DoAllX(<<new, Op("Arg", 1, <<f, ax>>)>>)
               [] Mode = "ops" ->
                    \E m2 \in {[i \in 1..Prod(s) |-> 0], [i \in 1..Prod(s) |-> IF i = 1 THEN 1 ELSE 0], [i \in 1..Prod(s) |-> 1 - m[i]]} :
                      \/ DoAllX(<<new, Op("NewMasked", 0, <<s, m2>>), Op("Arith", 1, <<"OP", "TT", 2, "safe", 0>>)>>)
